@@ -1,4 +1,5 @@
 import TinyFlux.Audit.Tool
 import TinyFlux.Props.C02
 import TinyFlux.Props.C02State
+import TinyFlux.Props.C02Witness
 #audit TinyFlux.Props.C02
